@@ -6,6 +6,26 @@ import json, os, subprocess, sys, time
 args = sys.argv[1:]
 REPO = os.environ.get('VERIF_REPO') or '/repo'
 HERE = os.path.dirname(os.path.dirname(os.path.abspath(__file__)))
+if args and args[0] == '--seeds':
+    # run every /verif/seeded/<name>/patch.diff against the check of its property (printed lines only)
+    import glob
+    only = args[1:]
+    for d in sorted(glob.glob(HERE + '/seeded/*/')):
+        nm = os.path.basename(d.rstrip('/'))
+        if only and not any(nm.startswith(o) for o in only):
+            continue
+        pid = nm.split('-')[0]
+        subprocess.run(['git', '-C', REPO, 'checkout', '--', '.'])
+        r = subprocess.run(['git', '-C', REPO, 'apply', d + 'patch.diff'], capture_output=True, text=True)
+        if r.returncode != 0:
+            print('SEED %s apply-failed' % nm, flush=True); continue
+        t0 = time.time()
+        p = subprocess.run([HERE + '/check', pid, 'quick'], cwd=HERE, capture_output=True, text=True)
+        viol = [l for l in p.stdout.splitlines() if l.startswith('VIOLATION')]
+        det = [l.strip() for l in p.stderr.splitlines() if l.startswith('  ')][:2]
+        print('SEED %s on %s: exit=%d violations=%d %.0fs | %s' % (nm, pid, p.returncode, len(viol), time.time() - t0, ' // '.join(det)[:400]), flush=True)
+        subprocess.run(['git', '-C', REPO, 'checkout', '--', '.'])
+    sys.exit(0)
 if args and args[0] == '--mutants':
     # run every /verif/mutants/<PROP>-m<k>.diff against the check of its property (and nothing is recorded
     # but the printed lines): used from `vp run --with-repo` with VERIF_REPO=$VP_RUN_REPO
